@@ -19,6 +19,24 @@ BASELINE_CMD = ("cd /repo && env -u MDPAX_VERIF /venv/bin/python -m pytest -ra -
                 "--timeout=900 --continue-on-collection-errors --junitxml=/tmp/mdpax_baseline_off.xml")
 
 
+LEVEL_WHY = {
+    "exploration": ("Assurance: the property held on every execution of this run - a generated, seeded workload of hostile "
+                    "inputs / configurations / histories driven through the real code and judged by an independent oracle; "
+                    "the evidence file says how many executions reached the deciding oracle, which classes they covered and "
+                    "the worst margins observed. It is not a for-all: the quantifier ranges over an unbounded space, so "
+                    "sampling structured classes (and, where a finite box exists, enumerating it completely) is the honest level."),
+    "fault_enumeration": ("Assurance: every enumerated fault point (interruption iteration / file-system event of the run) was "
+                          "injected into the real code in fresh processes and the outcome judged by an offline checker over the "
+                          "recorded history; complete for the enumerated workload in the thorough tier, a stratified sample in "
+                          "the quick tier. Faults inside native (non-audited) writes are sampled by wall-clock kills, not enumerated."),
+}
+
+
+def level_text(mod):
+    doc = " ".join(x.strip() for x in mod.__doc__.strip().splitlines())
+    return doc + " " + LEVEL_WHY.get(getattr(mod, "LEVEL", "exploration"), "")
+
+
 def hook_commits():
     out = subprocess.run(["git", "-C", "/repo", "log", "--format=%H %s"], capture_output=True, text=True).stdout
     return [l.split()[0] for l in out.splitlines() if "verif hook" in l]
@@ -43,7 +61,7 @@ def main():
             "engine": "vf",
             "level_claimed": {
                 "category": getattr(mod, "LEVEL", "exploration"),
-                "text": getattr(mod, "LEVEL_TEXT", mod.__doc__.strip().split("\n\n")[0]),
+                "text": getattr(mod, "LEVEL_TEXT", level_text(mod)),
                 "design_ref": f"DESIGN.md section 5, {pid}",
             },
             "level_note": "; ".join(getattr(mod, "ASSUMPTIONS", [])),
